@@ -25,7 +25,124 @@ import (
 	"verifharness/rig"
 )
 
-func init() { commands["c03app"] = c03app }
+func init() { commands["c03app"] = c03app; commands["c02app"] = c02app }
+
+// c02app (C02 / C01): the two ports of the REAL memproxy binary work on ONE L1. Which handler
+// constructor each listener gets is decided in package main (plain, chunked, in-memory ...): a key
+// made hot through the main port and then overwritten or deleted through the batch port must read
+// as the new value / as absent through the main port - L1 must not keep what L2 no longer has.
+// Sequential, no scheduling involved; run for the plain and for the -chunked L1.
+func c02app(e *env) {
+	w := rig.NewWriter(e.out, "C02", e.tier, e.seed)
+	w.Res.Cases = []rig.Case{}
+	finish := func() {
+		w.Res.Rule = "the real memproxy binary (go build app/memproxy.go) with -l2-enabled, with and without -chunked and -locked, fake memcached servers behind its L1 and L2 sockets: a key set through the main port (hot in L1), then set / deleted through the batch port, then read through both ports; values of 5 and 3000 bytes"
+		if err := w.Finish([]string{"base.Bytes", "base.Harness"}, "unit", "(fun _ => 0%N)"); err != nil {
+			rig.Die("%v", err)
+		}
+	}
+	repo := c18Repo()
+	bin := filepath.Join(e.out, "memproxy-real2")
+	bld := exec.Command("go", "build", "-o", bin, "app/memproxy.go")
+	bld.Dir = repo
+	bld.Env = append(os.Environ(), "GOFLAGS=-mod=mod", "GOPROXY=off", "GOSUMDB=off", "GOTOOLCHAIN=local")
+	if out, err := bld.CombinedOutput(); err != nil {
+		w.Fail(rig.GoFailure{Kind: "broken-correspondence", What: "app/memproxy.go does not build", Input: map[string]string{"cmd": "c02app"}, Detail: string(out)})
+		finish()
+		return
+	}
+	defer os.Remove(bin)
+	for _, extra := range [][]string{{}, {"-chunked"}, {"-chunked", "-locked"}, {"-locked"}} {
+		l1, l2 := fakemc.New(), fakemc.New()
+		l1.RealClock = func() int64 { return time.Now().Unix() }
+		l2.RealClock = l1.RealClock
+		s1, s2 := newSock(e), newSock(e)
+		ln1, err1 := l1.ListenUnix(s1)
+		ln2, err2 := l2.ListenUnix(s2)
+		if err1 != nil || err2 != nil {
+			rig.Die("listen: %v %v", err1, err2)
+		}
+		p, bp := freePort(), freePort()
+		flags := append([]string{"-l1-sock", s1, "-l2-enabled", "-l2-sock", s2, "-p", fmt.Sprint(p), "-bp", fmt.Sprint(bp)}, extra...)
+		proc := exec.Command(bin, flags...)
+		proc.Stdout, proc.Stderr = nil, nil
+		if err := proc.Start(); err != nil {
+			rig.Die("start memproxy: %v", err)
+		}
+		in := map[string]interface{}{"cmd": "c02app", "memproxy_flags": append([]string{"-l2-enabled"}, extra...)}
+		func() {
+			defer func() { proc.Process.Kill(); proc.Wait(); ln1.Close(); ln2.Close(); l1.CloseAll(); l2.CloseAll() }()
+			mainC, err := dialText(p)
+			if err != nil {
+				w.Fail(rig.GoFailure{Kind: "broken-correspondence", What: "the real memproxy did not accept connections on its main port", Input: in, Detail: err.Error()})
+				return
+			}
+			defer mainC.c.Close()
+			batchC, err := dialText(bp)
+			if err != nil {
+				w.Fail(rig.GoFailure{Kind: "broken-correspondence", What: "the real memproxy did not accept connections on its batch port", Input: in, Detail: err.Error()})
+				return
+			}
+			defer batchC.c.Close()
+			for _, n := range []int{5, 3000} {
+				k := fmt.Sprintf("hot%d", n)
+				v1, v2 := strings.Repeat("a", n), strings.Repeat("b", n)
+				var log []string
+				do := func(c *textClient, port, req string) string {
+					r, err := c.cmd(req, 10*time.Second)
+					if err != nil {
+						r += " <" + err.Error() + ">"
+					}
+					short := req
+					if len(short) > 40 {
+						short = short[:40] + "..."
+					}
+					rs := r
+					if len(rs) > 60 {
+						rs = rs[:60] + "..."
+					}
+					log = append(log, fmt.Sprintf("%s: %q -> %q", port, short, rs))
+					return r
+				}
+				val := func(f int, v string) string { return fmt.Sprintf("VALUE %s %d %d\r\n%s\r\nEND\r\n", k, f, len(v), v) }
+				bad := func(what string) {
+					w.Fail(rig.GoFailure{Kind: "counterexample", What: what, Input: in, Detail: strings.Join(log, " | ")})
+				}
+				if do(mainC, "main", fmt.Sprintf("set %s 5 0 %d\r\n%s\r\n", k, n, v1)) != "STORED\r\n" {
+					bad("a set through the main port of the real memproxy failed")
+					continue
+				}
+				if do(mainC, "main", "get "+k+"\r\n") != val(5, v1) {
+					bad("a value set through the main port is not read back through it")
+					continue
+				}
+				if do(batchC, "batch", fmt.Sprintf("set %s 7 0 %d\r\n%s\r\n", k, n, v2)) != "STORED\r\n" {
+					bad("a set through the batch port of the real memproxy failed")
+					continue
+				}
+				if do(mainC, "main", "get "+k+"\r\n") != val(7, v2) {
+					bad("after an acknowledged set through the batch port the main port still serves the value from before it (the two ports do not work on one L1)")
+					continue
+				}
+				if do(batchC, "batch", "get "+k+"\r\n") != val(7, v2) {
+					bad("the batch port does not read back the value it stored")
+					continue
+				}
+				if do(batchC, "batch", "delete "+k+"\r\n") != "DELETED\r\n" {
+					bad("a delete through the batch port failed")
+					continue
+				}
+				if do(mainC, "main", "get "+k+"\r\n") != "END\r\n" {
+					bad("after an acknowledged delete through the batch port the main port still serves the key (L1 holds what L2 no longer has)")
+					continue
+				}
+			}
+			w.Count("app-sequential=" + strings.Join(extra, ","))
+			w.Add(rig.Case{Desc: in, Coq: "tt", Nontrivial: true})
+		}()
+	}
+	finish()
+}
 
 func freePort() int {
 	l, err := net.Listen("tcp", "127.0.0.1:0")
